@@ -2,7 +2,7 @@ INIT Init
 NEXT Next
 CHECK_DEADLOCK FALSE
 CONSTANTS
-  Modes = {"single", "legacy", "indirect", "lists", "norm", "line"}
+  Modes = {"single", "legacy", "indirect", "lists", "norm", "line", "runs"}
   FullEnc = FALSE
   MaxList = 3
   BigList = FALSE
